@@ -21,17 +21,26 @@ def f(x):
     a = x + 1
     b = a * 2
     return b
+
+def g(y):
+    c = y - 1
+    return c
 '''
 CONFIGS = [
     (["f > a", "f > b"], [[0], [1]]),
     (["f > a", "f > a"], [[0], [0]]),
     (["f(a) > b", "f > b"], [[0, 1], [1]]),
 ]
+# bystanders (selector None): their own probe is on g, they call f while the others (de)activate probes on f
+BCONFIGS = [
+    (["f > a", None], [[0], []]),
+    (["f(a) > b", None, None], [[0, 1], [], []]),
+]
 
 
 def expected_events(sel, x):
     a, b = x + 1, (x + 1) * 2
-    return {"f > a": [{"a": a}], "f > b": [{"b": b}], "f(a) > b": [{"a": a, "b": b}]}[sel]
+    return {"f > a": [{"a": a}], "f > b": [{"b": b}], "f(a) > b": [{"a": a, "b": b}], None: []}[sel]
 
 
 def impl_state(mod, orig):
@@ -42,7 +51,8 @@ def impl_state(mod, orig):
         for el, n in st.captures.items():
             if n > 0:
                 caps[el.name] = caps.get(el.name, 0) + n
-    return {"count": 0 if st is None else st.instrument_count, "caps": caps, "orig": f.__code__ is orig}
+    return {"count": 0 if st is None else st.instrument_count, "caps": caps, "orig": f.__code__ is orig,
+            "info": hasattr(f, "__ptera_info__")}
 
 
 def run_one(chk, drv, sels, owns, schedule, lines, stats, names):
@@ -54,7 +64,7 @@ def run_one(chk, drv, sels, owns, schedule, lines, stats, names):
     m = drv.ask({"op": "sched_run", "owns": owns, "schedule": schedule})
     steps = [(st["t"], st["pc"]) for st in m["steps"] if st["enabled"]]
     model_sh = [st["sh"] for st in m["steps"] if st["enabled"]]
-    probes = [ptera.Probe(s, env=mod.__dict__) for s in sels]
+    probes = [ptera.Probe(s if s is not None else "g > c", env=mod.__dict__) for s in sels]
     outs = [p.accum() for p in probes]
     rets = [None] * n
     args = [3 + i for i in range(n)]
@@ -62,10 +72,16 @@ def run_one(chk, drv, sels, owns, schedule, lines, stats, names):
     def worker(tid, ctrl):
         probes[tid].__enter__()
         ctrl.arrive(tid, ("call", 0))
-        rets[tid] = mod.f(args[tid])
-        probes[tid].__exit__(None, None, None)
+        try:
+            rets[tid] = mod.f(args[tid])
+        finally:
+            if sels[tid] is None:
+                # a bystander keeps its probe (and stays away from the tooling lock) until the schedule is over
+                ctrl.arrive(tid, ("end", 0))
+            probes[tid].__exit__(None, None, None)
 
-    expected = [lines["tool"] + [("call", 0)] + lines["untool"] for _ in range(n)]
+    expected = [lines["tool"] + [("call", 0)] + lines["untool"] if sels[tid] is not None
+                else lines["bystander"] + [("end", 0)] for tid in range(n)]
     problem = None
     k = 0
     try:
@@ -77,7 +93,7 @@ def run_one(chk, drv, sels, owns, schedule, lines, stats, names):
                 mcaps[names[c]] = mcaps.get(names[c], 0) + cnt
             # compare at points where the model's lock is free (inside the critical section the real
             # code is in the middle of a line group only when it skipped no-op groups)
-            if (ist["count"], ist["caps"], ist["orig"]) != (msh["count"], mcaps, msh["orig"]):
+            if (ist["count"], ist["caps"], ist["orig"], ist["info"]) != (msh["count"], mcaps, msh["orig"], msh["info"]):
                 problem = {"step": k, "thread": tid, "pc": pc, "impl": ist, "model": msh}
                 break
     except S.Stuck as e:
@@ -184,11 +200,14 @@ def run(chk):
         free_search(chk, stats, 120 if chk.tier == "quick" else 1500)
         chk.cov["correspondence"]["schedules"] = stats
         return
-    lines = {"tool": [tuple(x) for x in info["tool_lines"]], "untool": [tuple(x) for x in info["untool_lines"]]}
+    lines = {"tool": [tuple(x) for x in info["tool_lines"]], "untool": [tuple(x) for x in info["untool_lines"]],
+             "bystander": [tuple(x) for x in info["bystander_lines"]]}
     plen = info["program_length"]
     chk.cov["model_search"] = {"disciplined": info["disciplined"], "bad_schedule": info["bad_schedule"],
                                "program_groups": plen}
     chk.cov["rule"] = (
+        "bystander threads (own probe on another function g) calling f at every pair of positions inside a probing "
+        "thread's activate / call / deactivate program; "
         "two threads, each activate(own probe) / call f / deactivate, on one shared function, with distinct, "
         "identical and overlapping captured variables; schedules: every split 'thread 0 runs i line groups, "
         "thread 1 runs j, thread 0 finishes, thread 1 finishes' (two preemptions) sampled in quick and "
@@ -210,6 +229,26 @@ def run(chk):
             both = 0 < sch.index(1) if 1 in sch else False
             chk.count((ci, tuple(sch)), nontrivial=True)
             run_one(chk, drv, sels, owns, sch, lines, stats, names_for[ci])
+    # ---- bystanders: every position of the bystander's two steps inside the prober's program
+    names_b = {0: ["a"], 1: ["a", "b"]}
+    for bi, (sels, owns) in enumerate(BCONFIGS):
+        nb = len(sels) - 1
+        bs = []
+        for i in range(plen + 1):
+            for j in range(plen + 1 - i):
+                for k in (range(1) if nb == 1 else range(0, plen + 1 - i - j, 3)):
+                    sch = [0] * i + [1] + [0] * j + ([1] if nb == 1 else [2]) + [0] * k + ([] if nb == 1 else [1, 2])
+                    bs.append(sch + [0] * plen + [1, 1, 2, 2])
+        if chk.tier == "quick":
+            bs = rng.sample(bs, min(len(bs), 60 if bi == 0 else 30))
+        for sch in bs:
+            chk.count(("bystander", bi, tuple(sch)), nontrivial=True)
+            chk.dist("bystander")
+            run_one(chk, drv, sels, owns, sch, lines, stats, names_b[bi])
+        r = drv.ask({"op": "sched", "owns": owns, "fuel": 400})
+        chk.cov["model_search"]["bystander_bad_schedule_%d" % bi] = r["bad_schedule"]
+        if r["bad_schedule"] is not None:
+            run_one(chk, drv, sels, owns, r["bad_schedule"] + [0] * plen + [1, 1, 2, 2], lines, stats, names_b[bi])
     chk.cov["correspondence"]["schedules"] = stats
     chk.sample({"selectors": CONFIGS[0][0], "schedule": scheds[0]})
     # ---- search: does the generated program (as extracted now) admit a bad schedule?
